@@ -45,6 +45,41 @@ def read_handle(prog, f, call):
     return bool(defs) and all(kind(d) == "call" and _opened_for_read(prog, d) for d in defs)
 
 
+def read_stream(prog, f, call):
+    """`hi_close_stdio(&v)` / `fclose(v)` where the local v is only ever assigned from HI_OPEN / fopen with a constant
+    read-only mode ("rb"/"r"): closing a stream that was never written cannot lose data"""
+    if not call[3]:
+        return False
+    a = strip(call[3][0])
+    if kind(a) == "addr":
+        a = strip(a[1])
+    if kind(a) != "var" or a[2] == "p":
+        return False
+    defs = []
+    for _, _, _, n in f.nodes(True):
+        if n[0] == "asg" and n[1] == "=" and kind(strip(n[2])) == "var" and strip(n[2])[1] == a[1]:
+            defs.append(strip(n[3]))
+        elif n[0] == "decl":
+            for d in n[1]:
+                if d[0] == a[1] and d[2] is not None:
+                    defs.append(strip(d[2]))
+
+    def ro_open(d):
+        d = strip(d)
+        if kind(d) == "cond":
+            c = strip(d[1])
+            if is_int(c):
+                return ro_open(d[2] if int_val(c) else d[3])
+            return ro_open(d[2]) and ro_open(d[3])
+        if kind(d) == "call" and d[1] == "fopen" and len(d[3]) == 2:
+            m = strip(d[3][1])
+            return kind(m) == "str" and m[1] in ("r", "rb")
+        return False
+
+    defs = [d for d in defs if not is_int(d)]
+    return bool(defs) and all(ro_open(d) for d in defs)
+
+
 # write / commit functions whose failure must not be lost (slot fillers, confirmed by reading; see DESIGN Appendix B)
 W_CORE = {
     # low-level file and DD layer
@@ -94,6 +129,9 @@ class F4(PathAnalysis):
         self.findings = {}  # key -> (kind, line, callee)
         self.counts = {"sites": 0}
         self.ro_aids = set()
+        self.propagates = False
+        self.swallow_for = None  # when set: failures are remembered for these callees only (the ones 'swallowed' is decided for)
+        self.prop_keys = None  # when set: only failures of these call keys count as propagated
 
     def init_user(self, func):
         return (frozenset(), frozenset())
@@ -174,15 +212,15 @@ class F4(PathAnalysis):
         unchecked, failed = user
         k = call_key(call)
         u = frozenset(x for x in unchecked if x[0] != k)
-        if outcome in ("fail", "fail?"):
-            return (u, failed | {k})
+        if outcome in ("fail", "fail?") and (self.swallow_for is None or call[1] in self.swallow_for):
+            # only the first failure on a path is remembered: every failure is the first one on the path where the
+            # earlier calls succeeded, and the state space stays linear in the number of call sites
+            return (u, failed if failed else frozenset({k}))
         return (u, failed)
 
     def on_assume(self, func, bid, cond, pol, env, user):
         # any comparison that mentions a held W result counts as 'looked at' (e.g. fwrite() != n)
         unchecked, failed = user
-        if not unchecked:
-            return user
         ks = set()
         for x in walk(cond, True):
             if x[0] == "call" and x[1] in self.W:
@@ -200,8 +238,8 @@ class F4(PathAnalysis):
                 for side in (c[2], c[3]):
                     x = strip(side)
                     if kind(x) == "call" and x[1] in ("fwrite", "fread"):
-                        if ((c[1] == "==") == pol) is False:
-                            fl = fl | {call_key(x)}
+                        if ((c[1] == "==") == pol) is False and not fl:
+                            fl = frozenset({call_key(x)})
             return (u, fl)
         return user
 
@@ -209,7 +247,11 @@ class F4(PathAnalysis):
         unchecked, failed = user
         cls = classify_ret(retval, self.fails)
         returned = retval[1] if retval and retval[0] == "r" else None
-        live = {v[1] for v in env.values() if v is not None and v[0] == "r"}
+        if self.prop_keys is None:
+            if (cls == "fail" and failed) or (returned is not None and returned[0] in self.W):
+                self.propagates = True
+        elif (cls == "fail" and failed & self.prop_keys) or (returned is not None and returned in self.prop_keys):
+            self.propagates = True
         for k in failed:
             if cls == "ok" and func.ret != "void":
                 self._add(("swallowed", k), k)
@@ -266,6 +308,62 @@ def compute_W(prog):
     return W, Ww, funcs
 
 
+def _write_edge(prog, f, c):
+    """can this call carry a write? (read-mode calls of mode-dependent callees and releases of read handles cannot)"""
+    from .rules_access import MODE_CALLEES
+    mc = MODE_CALLEES.get(c[1])
+    if mc and mc[0] is not None and mc[0] < len(c[3]) and mc[1](c[3][mc[0]]) == "r":
+        return False
+    if c[1] in READ_OPENERS:
+        return False
+    if c[1] in CLOSERS and read_handle(prog, f, c):
+        return False
+    return True
+
+
+def close_W(prog, W0, funcs, Wall, log=None, write_only=False):
+    """least set containing W0 and every status-returning function that turns a failure of a member into its own failure
+    (tests the result and returns its fail value, or returns the result itself)"""
+    W = set(W0)
+    callers = {}
+    for nm, f in funcs.items():
+        for _, _, _, c in f.calls():
+            for t in prog.callee_names(c, f):
+                callers.setdefault(t, set()).add(nm)
+    work = set()
+    for w in W:
+        work |= callers.get(w, set())
+    rounds = 0
+    while work:
+        rounds += 1
+        new = set()
+        for nm in sorted(work):
+            f = funcs.get(nm)
+            if f is None or nm in W or f.ret == "void" or nm not in Wall:
+                continue
+            if not any(c[1] in W for _, _, _, c in f.calls()):
+                continue
+            a = F4(prog, W)
+            a.fails = FAIL_OVERRIDE.get(nm) or fail_values(f, prog)
+            if write_only:
+                a.prop_keys = frozenset(call_key(c) for _, _, _, c in f.calls() if c[1] in W and _write_edge(prog, f, c))
+                if not a.prop_keys:
+                    continue
+            try:
+                a.run(f)
+            except Exception:
+                continue
+            if a.propagates:
+                new.add(nm)
+        W |= new
+        work = set()
+        for w in new:
+            work |= callers.get(w, set())
+        if log is not None:
+            log.append((rounds, sorted(new)))
+    return W
+
+
 def _layer(f):
     b = f.rel.rsplit("/", 1)[-1]
     return "legacy" if b in LEGACY_FILES else "core"
@@ -292,7 +390,11 @@ def rule_F4(ctx):
             ctx.unrecognised("F4", "F4:core:%s" % nm, funcs[nm].where(), "%s no longer reaches a storage primitive" % nm)
         else:
             core.add(nm)
-    W = (core | (slots & Wall) | PRIMS)
+    W0 = (core | (slots & Wall) | PRIMS)
+    wlog = []
+    W = close_W(prog, W0, funcs, Wall, wlog)
+    ctx.stats["W_seed"] = len(W0)
+    ctx.stats["W_closure_rounds"] = len(wlog)
     n_sites = 0
     for nm, f in sorted(funcs.items()):
         if not any(c[1] in W for _, _, _, c in f.calls()):
@@ -300,11 +402,18 @@ def rule_F4(ctx):
         if _layer(f) == "legacy" and ctx.tier != "thorough":
             continue
         a = F4(prog, W)
+        a.swallow_for = W0
         a.fails = FAIL_OVERRIDE.get(nm) or fail_values(f, prog)
         try:
             a.run(f)
         except Exception as e:
             ctx.unrecognised("F4", "F4:%s" % nm, f.where(), "analysis failed: %s" % e)
+            continue
+        if a.hard_degraded and a.findings:
+            # the path environment was dropped on some path: exit classification is unreliable there, so a report
+            # could be a false alarm -- refuse to decide instead
+            ctx.unrecognised("F4", "F4:%s" % nm, f.where(), "too many path states (environment dropped); findings %s not reliable" %
+                             sorted({k[0] for k in a.findings}))
             continue
         # group per callee+kind with ordinal
         per = {}
@@ -321,7 +430,25 @@ def rule_F4(ctx):
                 ctx.holds("F4", "F4:%s:%s" % (nm, callee), f.where(min(st)[0]),
                           "releases a handle this function opened for reading (nothing is written by it)", nontrivial=False)
                 continue
-            bad = [(what, lines) for (what, cal), lines in per.items() if cal == callee]
+            ro_lines = set()
+            for _, _, _, c in f.calls():
+                if c[1] == callee and ((callee in CLOSERS and read_handle(prog, f, c)) or
+                                       (callee in ("hi_close_stdio", "fclose") and read_stream(prog, f, c))):
+                    ro_lines.add(c[5])
+            bad = []
+            for (what, cal), lines in per.items():
+                if cal != callee:
+                    continue
+                if what in ("swallowed", "unchecked") and callee not in W0:
+                    continue
+                lines = [l for l in lines if l not in ro_lines]
+                if lines:
+                    bad.append((what, lines))
+            if not bad and ro_lines:
+                ctx.holds("F4", "F4:%s:%s" % (nm, callee), f.where(min(ro_lines)),
+                          "the dropped result belongs to the release of a handle / stream this function opened read-only (nothing written can be lost)",
+                          nontrivial=True)
+                continue
             if not bad:
                 ctx.holds("F4", "F4:%s:%s" % (nm, callee), f.where(min(st)[0]),
                           "%d call site(s): result tested, propagated, or dropped only on an already failing path" % len(st),
@@ -344,7 +471,29 @@ def rule_F4(ctx):
 
 
 # accepted idioms (each one line of reason); anything else is a finding
+# one named function + callee each, confirmed by reading; the reason says why no storage failure can be lost at that site
+F4_SITE_EXCEPT = {
+    ("HLInewlink", "Hendaccess"): "link_id is an AID on the DFTAG_LINKED table element this module has just created as a plain element: Hendaccess of a plain element only releases the access record (no I/O)",
+    ("HLPwrite", "Hendaccess"): "link_id is an AID on a plain DFTAG_LINKED table element (Hstartwrite on link_tag/link_ref): Hendaccess of a plain element performs no I/O",
+    ("GRIupdateRI", "Hendaccess"): "temp_aid was opened on a reference number obtained from Htagnewref two statements earlier: a new plain element, Hendaccess performs no I/O",
+    ("SDgetblocksize", "Hendaccess"): "temp_aid is released only when it came from Hstartread in this function (guard var->aid == FAIL): read handle, nothing written",
+    ("Hopen", "HIread_version"): "documented: the version element is optional; on any failure the in-memory version stays 'unknown' and nothing is written",
+    ("HIrelease_filerec_node", "hi_close_stdio"): "record destructor: Hclose closes the stream itself before calling it (stream pointer already NULL); the remaining callers are failing paths of Hopen",
+    ("tbbt_printNode", "fflush"): "debug printer flushing stdout, not an HDF file stream",
+    ("H4_ncabort", "H4_NC_free_cdf"): "ncabort discards the in-memory handle by contract (abort of a definition); reached for classic netCDF handles only (file_type != HDF_FILE)",
+    ("NC_endef", "H4_NC_free_cdf"): "classic netCDF redef path (temporary-file rename): not an HDF4 file",
+    ("nssdc_xdr_cdf", "H4_NC_free_cdf"): "NSSDC CDF import, read-only foreign format; the call is on the failing path of the import",
+    ("nssdc_read_cdf", "fseek"): "NSSDC CDF import (read-only foreign format), not an HDF4 workload",
+    ("nssdc_read_cdf", "fread"): "NSSDC CDF import (read-only foreign format), not an HDF4 workload",
+    ("hdf_xdr_destroy", "bio_write_page"): "buffered POSIX XDR stream used for classic netCDF files only; HDF4 files never create a biobuf",
+    ("hdf_xdr_destroy", "close"): "buffered POSIX XDR stream used for classic netCDF files only; HDF4 files never create a biobuf",
+}
+
+
 def _f4_exception(prog, f, callee, what, write_side):
+    r = F4_SITE_EXCEPT.get((f.name, callee))
+    if r:
+        return r
     if not write_side and what in ("dropped", "void", "unchecked"):
         return "read-side callee (%s cannot reach a write primitive): a dropped failure cannot make written data incomplete" % callee
     return None
